@@ -714,10 +714,12 @@ class Run(object):
         First, *fill* is called for the whole flow,
         after the *flow* is exhausted, *compute* is called.
         """
+        # this must be a generator, so that nothing
+        # is read from the flow before the results are requested
         for arg in flow:
             self._el.fill(arg)
-        results = self._el.compute()
-        return results
+        for result in self._el.compute():
+            yield result
 
     def __eq__(self, other):
         if not isinstance(other, Run):
